@@ -34,6 +34,8 @@ struct Case {
     declare_v: bool,
     /// number of leading one-bit columns written as one bits(n, 5) entry
     bits_prefix: usize,
+    /// the columns of a row carry different values
+    mixed: bool,
 }
 
 fn cases() -> Vec<Case> {
@@ -45,6 +47,7 @@ fn cases() -> Vec<Case> {
             header: vec!["A", "Q", "D", "D_out", "V"],
             declare_v: true,
             bits_prefix: 0,
+            mixed: false,
         });
         out.push(Case {
             name: format!("width {bits}: other signal order, inputs with default Z"),
@@ -52,6 +55,7 @@ fn cases() -> Vec<Case> {
             header: vec!["D_out", "V", "Q", "A", "D"],
             declare_v: true,
             bits_prefix: 0,
+            mixed: false,
         });
     }
     // one column bound to two signals of different widths
@@ -62,6 +66,7 @@ fn cases() -> Vec<Case> {
             header: vec!["A", "A_out"],
             declare_v: false,
             bits_prefix: 0,
+            mixed: false,
         });
         out.push(Case {
             name: format!("column A_out drives In A_out({b2}) and is expected by Bidir A({b1})"),
@@ -69,6 +74,7 @@ fn cases() -> Vec<Case> {
             header: vec!["A_out", "A"],
             declare_v: false,
             bits_prefix: 0,
+            mixed: false,
         });
     }
     // values after a bits(n, ..) entry that spans n columns: columns and entries are out of step
@@ -79,7 +85,31 @@ fn cases() -> Vec<Case> {
             header: vec!["A3", "A2", "A1", "A0", "D", "Q"],
             declare_v: false,
             bits_prefix: 4,
+            mixed: false,
         });
+    }
+    // signals of different widths side by side, every column of a row carrying a different value
+    let ws = [1usize, 2, 4, 8, 31, 32, 33, 63, 64];
+    for &wa in &ws {
+        for &wb in &ws {
+            for &wq in &ws {
+                if wa == wb && wb == wq {
+                    continue;
+                }
+                out.push(Case {
+                    name: format!("mixed widths: In A({wa}), In B({wb}), Out Q({wq}), Bidir D({wb}), different values per column"),
+                    sigs: if (wa + wb + wq) % 2 == 0 {
+                        vec![Sig::inp("A", wa, 0), Sig::inp("B", wb, 0), Sig::out("Q", wq), Sig::bidir("D", wb, V::Num(0)), Sig::out("R", 64)]
+                    } else {
+                        vec![Sig::out("R", 64), Sig::out("Q", wq), Sig::bidir("D", wb, V::Num(0)), Sig::inp("B", wb, 0), Sig::inp("A", wa, 0)]
+                    },
+                    header: vec!["A", "Q", "B", "D_out", "D"],
+                    declare_v: false,
+                    bits_prefix: 0,
+                    mixed: true,
+                });
+            }
+        }
     }
     out
 }
@@ -89,7 +119,7 @@ pub fn run(tier: Tier, seed: u64) -> i32 {
     let deadline = Deadline::new(tier.wall_cap());
     let values = boundary_values();
     let cases = cases();
-    let st = par_range("cases (widths 1..=64 x 2 signal orders, 16 double-bound column cases, 5 cases behind a bits(4,..) entry) x 2 value paths", cases.len() as u64 * 2, &deadline, |idx, st| {
+    let st = par_range("cases (widths 1..=64 x 2 signal orders, 16 double-bound column cases, 5 cases behind a bits(4,..) entry, 720 mixed-width cases) x 2 value paths", cases.len() as u64 * 2, &deadline, |idx, st| {
         let case = &cases[(idx / 2) as usize];
         let via_device = idx % 2 == 0;
         let header: Vec<String> = case.header.iter().map(|s| s.to_string()).collect();
@@ -109,14 +139,14 @@ pub fn run(tier: Tier, seed: u64) -> i32 {
         let mut script: Vec<Step> = vec![];
         let ans = |r: i64| -> Answer { case.sigs.iter().filter(|s| s.is_out()).map(|s| (s.name.clone(), V::Num(if s.name == "R" { r } else { 1 }))).collect() };
         if via_device {
-            body.push(Stmt::Repeat(lit(vals.len() as i64), with_prefix((0..ncol).map(|_| Entry::Paren(name("R"))).collect())));
+            body.push(Stmt::Repeat(lit(vals.len() as i64), with_prefix((0..ncol).map(|j| if case.mixed && j % 2 == 1 { Entry::Paren(un(UnOp::Inv, name("R"))) } else { Entry::Paren(name("R")) }).collect())));
             for v in &vals {
                 script.push(Step::Ans(ans(*v)));
             }
             script.push(Step::Ans(ans(0)));
         } else {
-            for v in &vals {
-                body.push(Stmt::Row(with_prefix((0..ncol).map(|_| Entry::Lit(*v, Radix::Hex)).collect())));
+            for (i, v) in vals.iter().enumerate() {
+                body.push(Stmt::Row(with_prefix((0..ncol).map(|j| Entry::Lit(if case.mixed { vals[(i + 37 * j) % vals.len()] } else { *v }, Radix::Hex)).collect())));
             }
             for _ in 0..=vals.len() {
                 script.push(Step::Ans(ans(0)));
@@ -162,7 +192,9 @@ pub fn run(tier: Tier, seed: u64) -> i32 {
             1 => st.witness("width_1"),
             _ => {}
         }
-        if !case.declare_v {
+        if case.mixed {
+            st.witness("signals_of_different_widths_side_by_side");
+        } else if !case.declare_v {
             st.witness("column_bound_to_two_signals_of_different_width");
         }
         if idx == 14 || idx == 127 {
@@ -207,12 +239,12 @@ pub fn run(tier: Tier, seed: u64) -> i32 {
         id: "C07",
         tier,
         seed,
-        rule: "every width 1..=64 x {0,1,2^k,2^k-1,-2^k,-2^k-1 (k=0..63),MAX,MIN,0x55..,0xAA..} on the input path, expected path, bidirectional signal (both paths) and virtual signal, each value reaching the program both as a hex literal (non-negative) and read back from a 64-bit device output; evaluations counts (value, column) pairs; non-trivial = the value does not fit the narrowest width of the case (reduction is not the identity)".into(),
+        rule: "every width 1..=64 x {0,1,2^k,2^k-1,-2^k,-2^k-1 (k=0..63),MAX,MIN,0x55..,0xAA..} on the input path, expected path, bidirectional signal (both paths) and virtual signal, each value reaching the program both as a hex literal (non-negative) and read back from a 64-bit device output; plus every triple of different widths from {1,2,4,8,31,32,33,63,64} side by side with different values per column; evaluations counts (value, column) pairs; non-trivial = the value does not fit the narrowest width of the case (reduction is not the identity)".into(),
         assumptions: vec![
             "oracle: v mod 2^bits as unsigned bit pattern (refsem::mask); a reduction of the form v & M is pinned exactly by the single-bit values, the others guard against non-mask implementations".into(),
             "values outside the boundary set are not enumerated (2^64 domain, see DESIGN section 10)".into(),
         ],
-        required_witnesses: vec!["width_64", "width_63", "width_1", "value_read_back_from_64_bit_device_output", "value_as_hex_literal", "column_bound_to_two_signals_of_different_width", "rows_after_a_row_that_could_not_be_evaluated"],
+        required_witnesses: vec!["width_64", "width_63", "width_1", "value_read_back_from_64_bit_device_output", "value_as_hex_literal", "column_bound_to_two_signals_of_different_width", "signals_of_different_widths_side_by_side", "rows_after_a_row_that_could_not_be_evaluated"],
         exhaustive_note: "all widths x all boundary values x all listed paths; quick = thorough".into(),
         e1: false,
     };
